@@ -391,6 +391,15 @@ def _match(ctx, keys):
 
     def veq(g, w):
         return isinstance(g, bool) and g is w
+
+    def derive(v):
+        # the tokens are what the grammar made of the spec
+        if v['parse'] == 'error':
+            return {}
+        return {spec: ' '.join(v['tok%d' % i] for i in range(v['parse']))}
+
+    def skip(v):
+        return v['parse'] != 'error' and v['spec'] not in ('1', 's')
     # two grids: operators with scalar operands, and list / range forms
     g1 = {PARSE: ('error', 1, 2), value: ('1', '2', '1.0', 'a'),
           spec: ('1', 'a'), toks[0]: tuple(ops) + ('1', 'a'),
@@ -398,13 +407,14 @@ def _match(ctx, keys):
           toks[4]: ('x',)}
     grid_compare(rep, 'R18.4', 'match:scalar', 'match() with parse outcome '
                  'x operator x operands', outcomes, g1, oracle,
-                 value_eq=veq)
+                 value_eq=veq, derive=derive, skip=skip)
     g2 = {PARSE: (3, 5), value: ("['aes', 'mmx']", '15', '10'),
           spec: ('s',), toks[0]: ('<or>', '<all-in>', '<range-in>'),
           toks[1]: ('aes', '[', '('), toks[2]: ('mmx', '10', '15'),
           toks[3]: ('20', '10'), toks[4]: (']', ')')}
     grid_compare(rep, 'R18.4', 'match:nary', 'match() with 3/5-token parse '
-                 'results', outcomes, g2, oracle, value_eq=veq)
+                 'results', outcomes, g2, oracle, value_eq=veq, derive=derive,
+                 skip=skip)
 
 
 # ------------------------------------------------------------ end to end
@@ -505,9 +515,16 @@ def _end_to_end(ctx, keys):
               '<or> a <or> b <or> 17', '<or> a <or> b <or> c <or> 5',
               "<all-in> aes mmx", '<all-in> aes', '<range-in> [ 1 5 ]',
               '<range-in> ( 1 5 )', '<range-in> ( 5 9 ]', 'abc', ' abc',
-              'abc ', '5', '', 'a b', '= ', 's== a b']
+              'abc ', '5', '', 'a b', '= ', 's== a b',
+              # operands that begin like an operator without being one
+              's== !abc', 's!= !abc', '<in> !9', '<or> !b <or> a',
+              '<or> a <or> s=x', '<all-in> !x s=y', 's== s=x', 's== s!x',
+              's== sx', '<in> s', '<or> s', '!abc', 's=x', '<all-in> aes aes',
+              # white space before / after / inside
+              ' >= 5', '  <or> a <or> b', ' s== abc', '\t<in> bc', '>= 5 ',
+              ' <range-in> [ 1 5 ] ', '<or>  a  <or>  b', ' <all-in> aes']
     values = ('5', '5.0', '6', '4', 'abc', '17', 'a', "['aes', 'mmx']",
-              ' abc')
+              ' abc', '!abc', 'x!9y', '!b', 's=x', "['!x', 's=y']", 's')
 
     def oracle(v):
         sp, x = v['spec'], v['value']
